@@ -12,9 +12,10 @@ import (
 // literal (`&tls.Config{MinVersion: tls.VersionTLS12}`) and plain assignments
 // (`cfg.MinVersion = ...`). The fact is the value written LAST in source order (straight-line code:
 // the anchored function has no loops). Codes: TLS1.0 = 0x0301 ... TLS1.3 = 0x0304, SSL3.0 = 0x0300.
-//   0     = the field is never set (crypto/tls then applies its own client default, see the model)
-//   65535 = set to something factgen cannot evaluate (the theorem `min_version` then fails: a broken
-//           proof obligation, which is the intended outcome)
+//
+//	0     = the field is never set (crypto/tls then applies its own client default, see the model)
+//	65535 = set to something factgen cannot evaluate (the theorem `min_version` then fails: a broken
+//	        proof obligation, which is the intended outcome)
 var tlsVersionCodes = map[string]int64{
 	"VersionSSL30": 0x0300,
 	"VersionTLS10": 0x0301,
